@@ -32,7 +32,7 @@ func Open(f *os.File) (*DMG, error) {
 	}
 	// read and parse signature
 	if d.rsf.SignatureLength != 0 {
-		if d.rsf.SignatureLength > 10e6 {
+		if d.rsf.SignatureLength < 0 || d.rsf.SignatureLength > 10e6 {
 			return nil, fmt.Errorf("unreasonably large dmg signature of %d bytes", d.rsf.SignatureLength)
 		}
 		d.sigBlob = make([]byte, d.rsf.SignatureLength)
